@@ -146,7 +146,52 @@ func runGsNode(dir string, seed uint64, tier string) {
 				default:
 					s = tStep{Kind: "goutgoingblock", Rid: 1, Size: 10, Index: 1, OnWire: true}
 				}
+				theirs := chidTok{2, 1, tid}
+				viewOf := func() string {
+					st, err := g.mgr.ChannelState(ctx, g.nr.chidReal(theirs))
+					if err != nil {
+						return "none"
+					}
+					return g.nr.snapOf(st).View
+				}
+				hadTheirs := sit == "their-pull-accepted" || sit == "their-pull-then-same-again"
+				viewBefore := ""
+				if hadTheirs {
+					viewBefore = viewOf()
+				}
 				o := g.tr.exec(s)
+				// a graphsync request the transport refused (terminated) belongs to no channel: when graphsync then reports
+				// the end of that refused response, no channel hears of it; and a refused duplicate of the request that
+				// opened a channel leaves that channel as it was
+				if cb == "gincomingrequest" && hadTheirs && !o.Hang && o.Panic == "" && o.Term {
+					// the manager applies events and runs cleanup asynchronously (a cancel request moves the channel on
+					// by itself): compare settled views only
+					settled := func() string {
+						v := viewOf()
+						for i := 0; i < 300; i++ {
+							time.Sleep(time.Millisecond)
+							w := viewOf()
+							if w == v && i >= 3 {
+								break
+							}
+							v = w
+						}
+						return v
+					}
+					viewMid := settled()
+					o2 := g.tr.exec(tStep{Kind: "gcompleted", Rid: 2, Status: 2})
+					if !o2.Hang && o2.Panic == "" {
+						viewAfter := settled()
+						if viewAfter != viewMid {
+							res.fail(monitorFailure{Property: "C16", CaseID: id, Signature: "refused-request-completion-hits-channel:" + mc.name, Input: label, Observed: viewAfter, Expected: viewMid,
+								What: "the end of a graphsync response the transport had refused was reported for a channel that does not own that request"})
+						}
+						if (mc.name == "new-pull-request" || mc.name == "new-push-request") && viewAfter != viewBefore {
+							res.fail(monitorFailure{Property: "C18", CaseID: id, Signature: "refused-duplicate-changed-existing-channel:" + mc.name, Input: label, Observed: viewAfter, Expected: viewBefore,
+								What: "a second request with the transfer id of an existing channel was refused, but the existing channel's state changed"})
+						}
+					}
+				}
 				res.hist("callback:" + cb)
 				res.hist("message:" + mc.name)
 				if o.Hang {
